@@ -2,6 +2,9 @@ package checks
 
 import (
 	"fmt"
+	"net/http"
+	"net/http/httptest"
+	"net/url"
 	"regexp"
 	"sort"
 	"strings"
@@ -63,14 +66,15 @@ type c02Case struct {
 	Cache   int    `json:"cache"` // 0 = caching disabled
 	First   string `json:"first_path"`
 	Strict  bool   `json:"strict_last_slash,omitempty"`
-	Twin    string `json:"twin,omitempty"`                           // "", "before", "after": a same-shape route with other variable names under POST
-	Head    bool   `json:"head_requests,omitempty"`                  // the history is requested with HEAD (served by the GET route)
-	Redisp  bool   `json:"redispatch,omitempty"`                     // the route's handler re-dispatches (HandleContext) to a static and to another dynamic route
-	Enc     bool   `json:"use_encoded_path,omitempty"`               // the router matches the ESCAPED request path (UseEncodedPath): the handlers see the escaped substrings
-	NA      bool   `json:"method_not_allowed_probe_first,omitempty"` // HandleMethodNotAllowed is on and every request is preceded by a DELETE (405) request for the same path
-	GVar    bool   `json:"global_var_defined_late,omitempty"`        // instead of a pattern of the pool: a global variable is defined AFTER its name was used as a plain variable
-	Mut     bool   `json:"handler_edits_params,omitempty"`           // the route's handler edits the Params map it was given, after reading it
-	Dump    bool   `json:"dump_routes,omitempty"`                    // the router's read-only inspection API (String, Routes, IterateRoutes, NamedRoutes) is called between registration and the requests and again between them
+	Twin    string `json:"twin,omitempty"`                             // "", "before", "after": a same-shape route with other variable names under POST
+	Head    bool   `json:"head_requests,omitempty"`                    // the history is requested with HEAD (served by the GET route)
+	Redisp  bool   `json:"redispatch,omitempty"`                       // the route's handler re-dispatches (HandleContext) to a static and to another dynamic route
+	Enc     bool   `json:"use_encoded_path,omitempty"`                 // the router matches the ESCAPED request path (UseEncodedPath): the handlers see the escaped substrings
+	NA      bool   `json:"method_not_allowed_probe_first,omitempty"`   // HandleMethodNotAllowed is on and every request is preceded by a DELETE (405) request for the same path
+	GVar    bool   `json:"global_var_defined_late,omitempty"`          // instead of a pattern of the pool: a global variable is defined AFTER its name was used as a plain variable
+	Mut     bool   `json:"handler_edits_params,omitempty"`             // the route's handler edits the Params map it was given, after reading it
+	EncFwd  bool   `json:"forwarded_under_use_encoded_path,omitempty"` // instead of a pattern of the pool: requests with non-default escapes on a UseEncodedPath router, forwarded by their handler to another path with HandleContext
+	Dump    bool   `json:"dump_routes,omitempty"`                      // the router's read-only inspection API (String, Routes, IterateRoutes, NamedRoutes) is called between registration and the requests and again between them
 }
 
 var c02VarName = regexp.MustCompile(`\{([a-z]+)`)
@@ -145,6 +149,9 @@ func c02Paths(pattern string) []string {
 		if i%7 == 0 {
 			set[p+"/zz"] = true
 			set[p+"/"] = true
+			// white space the normaliser strips, in multi-byte form (no-break space, ideographic space)
+			set[p+"\u00a0"] = true
+			set[p+"/\u3000"] = true
 			if len(p) > 2 {
 				set[p[:len(p)-1]] = true
 			}
@@ -169,6 +176,9 @@ func init() {
 
 func c02Gen(tier string, emit func(c02Case)) {
 	emit(c02Case{GVar: true})
+	for _, cc := range []int{0, 1, 2} {
+		emit(c02Case{EncFwd: true, Cache: cc})
+	}
 	for _, pat := range c02Pool {
 		for _, cc := range []int{0, 2} {
 			emit(c02Case{Pattern: pat, Cache: cc, Redisp: true})
@@ -269,6 +279,9 @@ func c02Run(c c02Case, st *fw.Stats) []fw.Viol {
 	defer c02GlobalVarMu.RUnlock()
 	if c.Redisp {
 		return c02Redispatch(c, st, add, &viols)
+	}
+	if c.EncFwd {
+		return c02EncodedForward(c, st, add, &viols)
 	}
 	pt, err := refmodel.CachedPattern(refmodel.Norm(c.Pattern, c.Strict))
 	if err != nil {
@@ -515,11 +528,58 @@ func c02Redispatch(c c02Case, st *fw.Stats, add func(sig, msg string), viols *[]
 	return *viols
 }
 
+// c02EncodedForward: on a UseEncodedPath router a handler rewrites URL.Path and forwards the request with HandleContext.
+// The request was spelled with escapes (default and non-default ones, so URL.RawPath is set or empty); the forwarded
+// dispatch must capture the parameters of the NEW path.
+func c02EncodedForward(c c02Case, st *fw.Stats, add func(sig, msg string), viols *[]fw.Viol) []fw.Viol {
+	opts := []func(*rux.Router){rux.UseEncodedPath}
+	if c.Cache > 0 {
+		opts = append(opts, rux.CachingWithNum(uint16(c.Cache)))
+	}
+	for _, target := range []struct{ path, want string }{{"/users/0", "U:id=0"}, {"/users/a b", "U:id=a%20b"}, {"/items/7/x", "I:k=x,n=7"}, {"/plain", "P:"}} {
+		r := rux.New(opts...)
+		var seen []string
+		hops := 0
+		r.GET("/fwd/{x}", func(ctx *rux.Context) {
+			hops++
+			if hops > 1 {
+				seen = append(seen, "FORWARDER-AGAIN:"+canonParams(ctx.Params))
+				return
+			}
+			ctx.Req.URL.Path = target.path
+			ctx.Router().HandleContext(ctx)
+		})
+		r.GET("/users/{id}", func(ctx *rux.Context) { seen = append(seen, "U:"+canonParams(ctx.Params)) })
+		r.GET("/items/{n}/{k}", func(ctx *rux.Context) { seen = append(seen, "I:"+canonParams(ctx.Params)) })
+		r.GET("/plain", func(ctx *rux.Context) { seen = append(seen, "P:"+canonParams(ctx.Params)) })
+		for _, raw := range []string{"/fwd/a%2Fb", "/fwd/%41", "/fwd/a%20b", "/fwd/ab", "/fwd/%C3%A9", "/fwd/a%2fb", "/fwd/a%252Fb", "/fwd/x%3By"} {
+			for rep := 0; rep < 2; rep++ {
+				st.Evals++
+				st.Nontrivial++
+				u, err := url.Parse("http://h" + raw)
+				if err != nil {
+					panic(err)
+				}
+				seen, hops = nil, 0
+				req := &http.Request{Method: "GET", URL: u, Header: http.Header{}, Proto: "HTTP/1.1", ProtoMajor: 1, ProtoMinor: 1, Host: "h"}
+				if pv := try(func() { r.ServeHTTP(httptest.NewRecorder(), req) }); pv != nil {
+					add("redispatch:panic", fmt.Sprintf("UseEncodedPath, cache=%d: GET %s forwarded to %q panicked: %v", c.Cache, raw, target.path, pv))
+					continue
+				}
+				if got := strings.Join(seen, " "); got != target.want {
+					add("params:redispatch-encoded", fmt.Sprintf("UseEncodedPath router (cache=%d) with GET /fwd/{x} (handler sets URL.Path = %q and calls HandleContext), GET /users/{id}, GET /items/{n}/{k}, GET /plain: request %s (URL.RawPath %q), time #%d: handlers ran [%s], expected [%s]", c.Cache, target.path, raw, u.RawPath, rep+1, got, target.want))
+				}
+			}
+		}
+	}
+	return *viols
+}
+
 var c02Spec = fw.Spec[c02Case]{
 	ID:    "C02",
 	Level: "model_checking",
-	Rule: "complete product per pattern (22 patterns; a sibling router built from the same option values and holding the pattern with other variable names is served every request first): every ordered pair (p,q) of candidate paths (all value tuples over 12 values substituted at every optional depth, plus perturbations) requested as the history p,q,p,q on routers with cache off / capacity 1 / capacity 2, via Match and ServeHTTP (also behind a 405 probe for the same path, with a global variable that is defined only after its name was used, with UseEncodedPath, where the escaped path is what is matched and captured, and with a handler that edits the Params it was given); " +
-		"oracle = back-tracking reference matcher (all decompositions); plus every matching path re-dispatched by its handler (HandleContext) to a static, a dynamic and an optional route, whose handlers must see exactly their own parameters; non-trivial = a request whose path matches the dynamic pattern",
+	Rule: "complete product per pattern (22 patterns; a sibling router built from the same option values and holding the pattern with other variable names is served every request first): every ordered pair (p,q) of candidate paths (all value tuples over 12 values substituted at every optional depth, plus perturbations incl. trailing multi-byte white space) requested as the history p,q,p,q on routers with cache off / capacity 1 / capacity 2, via Match and ServeHTTP (also behind a 405 probe for the same path, with a global variable that is defined only after its name was used, with UseEncodedPath, where the escaped path is what is matched and captured, and with a handler that edits the Params it was given); " +
+		"oracle = back-tracking reference matcher (all decompositions); plus every matching path re-dispatched by its handler (HandleContext) to a static, a dynamic and an optional route, whose handlers must see exactly their own parameters; requests spelled with default and non-default escapes on a UseEncodedPath router whose handler rewrites URL.Path and forwards with HandleContext; non-trivial = a request whose path matches the dynamic pattern",
 	Assume: []string{"values and patterns are drawn from the stated alphabets", "handlers treat Params as read-only, except in the cases marked handler_edits_params (where the edit must stay private to that request)"},
 	Bounds: func(tier string) map[string]any {
 		n := 0
